@@ -492,6 +492,9 @@ impl FixedMethod {
                         continue;
                     }
                     break;
+                } else {
+                    // Any other character (joiners, signs, punctuations) ends the conjunct.
+                    break;
                 }
             }
 
